@@ -132,6 +132,28 @@ pub fn cases(tier: Tier) -> Vec<GCase> {
             out.push(truncate_case(n, x, tier));
         }
     }
+    // the composer's constant witnesses as inputs
+    for n in trunc_widths(tier) {
+        for x in [zero(), one()] {
+            let mut c = truncate_case(n, x, tier);
+            c.g = c.g.with_const_handles();
+            c.class = "truncate/const-handles".into();
+            c.named = None;
+            c.dev_stride = if n <= 3 { 1 } else { 0 };
+            c.confirm = n <= 3 || n >= 253;
+            out.push(c);
+        }
+    }
+    for n in decomp_widths(tier) {
+        for x in [zero(), one()] {
+            let mut c = decomposition_case(n, x);
+            c.g = c.g.with_const_handles();
+            c.class = format!("{}/const-handles", c.class);
+            c.dev_stride = if n <= 3 { 1 } else { 0 };
+            c.confirm = n <= 9 || n >= 254;
+            out.push(c);
+        }
+    }
     for n in decomp_widths(tier) {
         for x in values(n, seed, tier == Tier::Thorough) {
             out.push(decomposition_case(n, x));
